@@ -1,1 +1,28 @@
-fn main() { println!("{}", ssdeep::hash_buf(b"Hello, World!\n").unwrap()); }
+//! Verification harness for a4lg/ffuzzy: drives the real API and records what it
+//! returned (trace validation), or replays TLC-generated scenarios.  It contains no
+//! expected values: every judgement is made by TLC against the TLA+ specification.
+mod util;
+mod words;
+
+fn main() {
+    let argv: Vec<String> = std::env::args().collect();
+    if argv.len() < 2 {
+        eprintln!("usage: verif-harness <cmd> [--seed N] [--tier quick|thorough] [--out DIR] [--shards N]");
+        std::process::exit(2);
+    }
+    let args = util::parse_args(&argv[2..]);
+    match argv[1].as_str() {
+        "findwords" => {
+            let w = words::find(8, 16, args.seed);
+            words::save(&w, &args.out);
+            for (k, v) in w.levels.iter().enumerate() {
+                eprintln!("level {}: {}", k, v.len());
+            }
+            eprintln!("maxroll {} zeroroll {} none {}", w.maxroll.len(), w.zeroroll.len(), w.none.len());
+        }
+        x => {
+            eprintln!("unknown command {}", x);
+            std::process::exit(2);
+        }
+    }
+}
